@@ -44,6 +44,12 @@ def run(rep, tier):
             path = core.write_replay("C01", oid, data)
             ok = replaylib.run_replay("C01", path)
             rep.violation(oid, path, nofail=not ok)
+    # Layer 1: operator== under its DFCC contract (equal iff same dimension, same emptiness and equal components; witness index otherwise)
+    from props import suvfam
+    import suvfam_scen
+    fam = suvfam.Fam(rep, "C01", sub=".l1")
+    fam.add_life(names=["eq"])
+    fam.run(scenario=suvfam_scen.scenario)
 
 
 def replay(path):
